@@ -683,22 +683,29 @@ Proof.
     unfold zone_offset_at. cbn [zone_lookup]. f_equal. lia.
 Qed.
 
+Lemma day0_val : day0 = -719528.
+Proof. reflexivity. Qed.
+
 Lemma to_timetz_fixed ctx o d :
   tz ctx = ZFixed o -> wf_dt d -> dt_kind d = KTime ->
   dt_to_timetz ctx d = mkdt KTimeTZ (dt_sec d - o) (dt_nsec d) o.
 Proof.
-  intros Hz [Hn Hw] Hk. rewrite Hk in Hw. destruct Hw as [Ho Hr].
+  intros Hz [Hn Hw] Hk. rewrite Hk in Hw. destruct Hw as [Ho Hr]. rewrite day0_val in Hr.
   unfold dt_to_timetz, time_to_timetz. rewrite Hk, Hz.
   rewrite go_date_ymd by exact Hn.
   rewrite zone_local_to_unix_fixed.
   rewrite new_timetz_nf by exact Hn.
   set (now := mkg (now_sec ctx) 0 (ZFixed (now_local_off ctx))).
   pose proof (g_hms_sod (to_g d)) as Hs.
-  assert (Hsod : g_sod (to_g d) = dt_sec d - day0 * 86400).
-  { unfold g_sod. rewrite to_g_local, Ho. unfold secs_per_day. unfold day0 in *. cbn in Hr |- *. lia. }
-  unfold g_sod at 1. unfold g_local, g_off. cbn [g_sec g_nsec g_loc].
+  assert (Hsod : g_sod (to_g d) = dt_sec d + 719528 * 86400).
+  { unfold g_sod. rewrite to_g_local, Ho. unfold secs_per_day. lia. }
+  rewrite Hsod in Hs.
+  set (h := g_hour (to_g d)) in *. set (mi := g_minute (to_g d)) in *. set (s := g_second (to_g d)) in *.
+  set (dn := g_days now).
+  unfold g_sod, g_local, g_off. cbn [g_sec g_nsec g_loc].
   unfold zone_offset_at. cbn [zone_lookup]. cbn [to_g g_nsec].
-  f_equal. unfold secs_per_day. unfold day0 in *. cbn in Hr |- *. lia.
+  rewrite day0_val. unfold secs_per_day.
+  f_equal. lia.
 Qed.
 
 Lemma conv_embeds_fixed ctx o a b :
@@ -745,3 +752,162 @@ Example compare_trans_ztable_counterexample :
   compare_datetime true ctx b c = CmpOk (-1) /\
   compare_datetime true ctx a c = CmpOk 1.
 Proof. vm_compute. repeat split. Qed.
+
+(* ================================================================== *)
+(* 12. precision_rounding                                              *)
+(* ================================================================== *)
+
+Definition prec_units : list Z :=
+  [1000000000; 100000000; 10000000; 1000000; 100000; 10000; 1000; 100; 10; 1].
+
+(* Time.Round to a unit dividing one second: the result is a multiple of the
+   unit, at most half a unit away, halfway cases going up (later). *)
+Lemma go_round_unit t d :
+  In d prec_units -> nsec_ok t ->
+  nsec_ok (go_round t d) /\ g_loc (go_round t d) = g_loc t /\
+  g_nsec (go_round t d) mod d = 0 /\
+  - d < 2 * ((g_sec (go_round t d) - g_sec t) * 1000000000 + (g_nsec (go_round t d) - g_nsec t)) <= d.
+Proof.
+  intros Hd Hn. unfold nsec_ok in *. unfold go_round, go_add_ns, nanos_per_sec, unix_to_internal.
+  destruct t as [s n l]. cbn [g_sec g_nsec g_loc] in *.
+  unfold prec_units in Hd. cbn [In] in Hd.
+  repeat (destruct Hd as [<-|Hd]; [
+    match goal with |- context [if ?c <=? 0 then _ else _] => destruct (Z.leb_spec c 0); [lia|] end;
+    match goal with |- context [if ?a <? ?b then _ else _] => destruct (Z.ltb_spec a b) end;
+    cbn [g_sec g_nsec g_loc]; (repeat split; try reflexivity; lia) |]).
+  contradiction.
+Qed.
+
+Lemma prec_duration_unit p : 0 <= p <= 9 -> prec_duration p = 10 ^ (9 - p) /\ In (10 ^ (9 - p)) prec_units.
+Proof.
+  intros Hp. assert (H : p = 0 \/ p = 1 \/ p = 2 \/ p = 3 \/ p = 4 \/ p = 5 \/ p = 6 \/ p = 7 \/ p = 8 \/ p = 9) by lia.
+  repeat (destruct H as [->|H]; [split; [reflexivity|cbn; tauto]|]). subst. split; [reflexivity|cbn; tauto].
+Qed.
+
+(* what time.Parse hands back: nanoseconds in range, offset-only location *)
+Definition parsed_ok (t : gtime) : Prop := nsec_ok t /\ exists o, g_loc t = ZFixed o.
+
+Lemma go_parse_ok l s t : go_parse l s = Some t -> parsed_ok t.
+Proof.
+  unfold go_parse. destruct (parse_items l pf_init s) as [f|]; [|discriminate].
+  unfold finish_parse.
+  destruct ((_ <? 1) || _); [discriminate|].
+  set (t0 := go_date _ _ _ _ _ _ _ zUTC).
+  assert (H0 : nsec_ok t0).
+  { unfold nsec_ok, t0, go_date, nanos_per_sec. cbn [g_nsec]. lia. }
+  destruct (pf_z f); [|destruct (negb (pf_zoff f =? -1))]; intros H; injection H as <-;
+    (split; [exact H0 | eexists; reflexivity]).
+Qed.
+
+Lemma first_parse_ok ls s t : first_parse ls s = Some t -> parsed_ok t.
+Proof.
+  induction ls as [|l ls IH]; cbn; [discriminate|].
+  destruct (go_parse l s) eqn:E; [|exact IH].
+  intros H; injection H as <-. eapply go_parse_ok; exact E.
+Qed.
+
+Lemma parse_raw_ok s k v : parse_raw s = Some (k, v) -> parsed_ok v.
+Proof.
+  unfold parse_raw.
+  destruct (go_parse lay_date s) eqn:E1; [intros H; injection H as <- <-; eapply go_parse_ok; exact E1|].
+  destruct (first_parse timetz_layouts s) eqn:E2.
+  { intros H; injection H as <- <-. destruct (first_parse_ok _ _ _ E2) as [Hn _].
+    split; [exact Hn | eexists; reflexivity]. }
+  destruct (go_parse lay_time s) eqn:E3; [intros H; injection H as <- <-; eapply go_parse_ok; exact E3|].
+  destruct (first_parse tstz_layouts s) eqn:E4; [intros H; injection H as <- <-; eapply first_parse_ok; exact E4|].
+  destruct (first_parse ts_layouts s) eqn:E5; [intros H; injection H as <- <-; eapply first_parse_ok; exact E5|].
+  discriminate.
+Qed.
+
+(* total nanoseconds of the instant *)
+Definition dt_ns (d : datetime) : Z := dt_sec d * 1000000000 + dt_nsec d.
+
+Definition day_ns : Z := 86400 * 1000000000.
+
+(* ParseTime with precision p in 0..9 (exec caps at 6): same type and offset
+   as without precision; the nanoseconds are a multiple of 10^(9-p); the
+   instant moves by at most half a unit (a tie goes up).  For timestamps the
+   carry runs into seconds and days; for time/timetz the time of day wraps
+   around midnight (the move is half a unit modulo 24h); dates are untouched. *)
+Theorem precision_rounding ctx src p d0 :
+  0 <= p <= 9 -> parse_time ctx src (-1) = Some d0 ->
+  exists d, parse_time ctx src p = Some d /\
+    dt_kind d = dt_kind d0 /\ dt_off d = dt_off d0 /\
+    0 <= dt_nsec d < 1000000000 /\ dt_nsec d mod 10 ^ (9 - p) = 0 /\
+    match dt_kind d0 with
+    | KDate => d = d0
+    | KTimestamp | KTimestampTZ =>
+        - 10 ^ (9 - p) < 2 * (dt_ns d - dt_ns d0) <= 10 ^ (9 - p)
+    | KTime | KTimeTZ =>
+        exists delta, - 10 ^ (9 - p) < 2 * delta <= 10 ^ (9 - p) /\
+                      (dt_ns d - dt_ns d0 - delta) mod day_ns = 0 /\
+                      day0 * 86400 <= dt_sec d + dt_off d < (day0 + 1) * 86400
+    end.
+Proof.
+  intros Hp. unfold parse_time. destruct (parse_raw src) as [[k v]|] eqn:E; [|discriminate].
+  intros H; injection H as <-.
+  destruct (parse_raw_ok _ _ _ E) as [Hn [o Hl]].
+  destruct (prec_duration_unit p Hp) as [Hd Hin].
+  eexists; split; [reflexivity|].
+  unfold build_parsed, adjust_precision.
+  replace (-1 <? -1) with false by reflexivity.
+  replace (-1 <? p) with true by (symmetry; apply Z.ltb_lt; lia).
+  rewrite Hd. set (u := 10 ^ (9 - p)) in *.
+  destruct (go_round_unit v u Hin Hn) as (Hn' & Hl' & Hm & Hdelta).
+  set (v' := go_round v u) in *.
+  assert (Ho : g_off v = o) by (unfold g_off; rewrite Hl; reflexivity).
+  assert (Ho' : g_off v' = o) by (unfold g_off; rewrite Hl', Hl; reflexivity).
+  assert (Hu : 0 < u) by (unfold prec_units in Hin; cbn [In] in Hin; lia).
+  destruct k.
+  - (* date *)
+    rewrite new_date_nf. cbn. repeat split; try lia; try (apply Z.mod_0_l; lia).
+  - (* time *)
+    rewrite !new_time_nf by assumption. cbn [dt_kind dt_off dt_nsec dt_sec].
+    repeat split; try (apply Hn'); try exact Hm.
+    exists ((g_sec v' - g_sec v) * 1000000000 + (g_nsec v' - g_nsec v)).
+    split; [exact Hdelta|]. unfold dt_ns, day_ns. cbn [dt_sec dt_nsec].
+    pose proof (g_sod_range v'). unfold g_sod, g_local in *. rewrite Ho, Ho' in *.
+    unfold secs_per_day in *. rewrite day0_val. split; lia.
+  - (* timetz *)
+    rewrite !new_timetz_nf by assumption. cbn [dt_kind dt_off dt_nsec dt_sec].
+    rewrite Ho, Ho'.
+    repeat split; try (apply Hn'); try exact Hm.
+    exists ((g_sec v' - g_sec v) * 1000000000 + (g_nsec v' - g_nsec v)).
+    split; [exact Hdelta|]. unfold dt_ns, day_ns. cbn [dt_sec dt_nsec].
+    pose proof (g_sod_range v'). unfold g_sod, g_local in *. rewrite Ho, Ho' in *.
+    unfold secs_per_day in *. rewrite day0_val. split; lia.
+  - (* timestamp *)
+    rewrite !new_timestamp_nf by assumption. cbn [dt_kind dt_off dt_nsec dt_sec].
+    repeat split; try (apply Hn'); try exact Hm;
+      unfold dt_ns, g_local; cbn [dt_sec dt_nsec]; rewrite Ho, Ho'; lia.
+  - (* timestamptz *)
+    rewrite !new_timestamptz_nf by assumption. cbn [dt_kind dt_off dt_nsec dt_sec].
+    rewrite Ho, Ho'.
+    repeat split; try (apply Hn'); try exact Hm;
+      unfold dt_ns; cbn [dt_sec dt_nsec]; lia.
+Qed.
+Print Assumptions precision_rounding.
+
+(* exec caps the precision at 6 and rejects negative ones; beyond 9 (only
+   reachable through types.ParseTime directly) Round(0) leaves the value alone. *)
+Lemma exec_precision_cap ctx takes src p :
+  6 < p -> exec_parse_datetime ctx true src (Some p) = exec_parse_datetime ctx takes src (Some 6)
+           \/ takes = false.
+Proof.
+  intros Hp. destruct takes; [left|right; reflexivity].
+  unfold exec_parse_datetime, max_timestamp_precision.
+  replace (p <? 0) with false by (symmetry; apply Z.ltb_ge; lia).
+  replace (6 <? p) with true by (symmetry; apply Z.ltb_lt; lia).
+  reflexivity.
+Qed.
+
+Lemma parse_time_big_precision ctx src p :
+  9 < p -> parse_time ctx src p = parse_time ctx src (-1).
+Proof.
+  intros Hp. unfold parse_time. destruct (parse_raw src) as [[k v]|]; [|reflexivity].
+  f_equal. unfold build_parsed, adjust_precision, prec_duration, go_round.
+  replace (-1 <? p) with true by (symmetry; apply Z.ltb_lt; lia).
+  replace (p <? 0) with false by (symmetry; apply Z.ltb_ge; lia).
+  replace (p <=? 9) with false by (symmetry; apply Z.leb_gt; lia).
+  reflexivity.
+Qed.
